@@ -247,6 +247,12 @@ def configs(tier, seed):
         [('V', 'V1', {}), ('R', 'R1', {}), ('Node', 'n', {'label': '2'}), ('Gnd', 'g', {'label': '0'})],
         [('I', 'I1', {}), ('R', 'R1', {}), ('Node', 'n', {'label': '4'}), ('Gnd', 'g', {'label': '1'})],
     ]
+    # (3) wire runs joined by a later wire: three wires with free end points (every coincidence pattern, hence every order / direction of bridging)
+    cfgs.append({'items': [('W', 'w1', {}), ('W', 'w2', {}), ('W', 'w3', {}), ('Gnd', 'g', {'label': '0'})]})
+    cfgs.append({'items': [('W', 'w1', {}), ('W', 'w2', {}), ('W', 'w3', {}), ('R', 'R1', {})]})
+    if tier == 'thorough':
+        cfgs.append({'items': [('W', 'w1', {}), ('W', 'w2', {}), ('W', 'w3', {}), ('W', 'w4', {}), ('Node', 'n', {'label': 'A'})]})
+        cfgs.append({'items': [('W', 'w1', {}), ('W', 'w2', {}), ('W', 'w3', {}), ('V', 'V1', {}), ('Gnd', 'g', {'label': '0'})]})
     if tier == 'thorough':
         base_lists += [
             [('V', 'V1', {}), ('R', 'R1', {}), ('L', 'L1', {}), ('W', 'w1', {}), ('Gnd', 'g', {'label': '0'})],
@@ -274,5 +280,5 @@ def main(tier):
         explanation='bounded symbolic verification: real symbol objects (every two-terminal kind of the component translator table except the two compound sources, wires, node labels, ground; every reversal / sine / degree flag combination) are given SYMBOLIC terminal coordinates; the real parser and translator are executed and every coincidence pattern of the terminals is explored by forking on coordinate equality; on each path the node index of every terminal pair agrees with an independent union-find over "coincide or joined by a wire", labels and the ground symbol name the node they sit on, and the translated component list equals the intended netlist (identifier, kind, terminal order with source polarity start->end unless reversed, every value as a polynomial identity, degree->radian and sine->cosine conversion of phases)',
         assumptions=['schemdraw placement (at / right / up, rotation, unit scaling) is not encoded: anchors are free symbolic coordinates, so invariance under rotation / translation / rescaling / wire splitting holds exactly as far as those operations preserve which terminals coincide', 'round_node (2 decimals) is the identity on the symbolic coordinates',
                      'label text formatting is stubbed (C18 / C14)', 'at most one explicit label per electrical node', 'two-terminal symbols have distinct terminals', 'compound RealVoltageSource / RealCurrentSource symbols are not covered'],
-        bounds={'element lists': 'up to ' + ('4' if tier == 'quick' else '5') + ' items; insertion orders: all for <= 3 items, seeded sample above', 'symbol kinds': list(TWO_TERMINAL) + ['Gnd', 'Node']},
+        bounds={'element lists': 'up to ' + ('4' if tier == 'quick' else '5') + ' items (up to ' + ('3' if tier == 'quick' else '4') + ' wires); insertion orders: all for <= 3 items, seeded sample above', 'symbol kinds': list(TWO_TERMINAL) + ['Gnd', 'Node']},
         trusted=['z3 (QF_LRA through symx)', 'symx executor'])
